@@ -285,6 +285,8 @@ PROPS = {
         "jobs": [
             {"kind": "graph", "spec": "MC_C10", "cfg": "MC_C10_quick", "module": "Abi", "tiers": ["quick"], "max_len": 400,
              "need": ["Encode/ok", "Encode/encodable", "Decode/ok", "DecodeMut/ok", "DecodeMut/canonical"]},
+            # the harness's own codec (used by the ITS binding) is held to the same TLC verdicts: a mismatch is a tool error
+            {"kind": "graph", "spec": "MC_C10", "cfg": "MC_C10_quick", "module": "AbiOwn", "suffix": "_own", "selfcheck": True, "max_len": 400},
             {"kind": "graph", "spec": "MC_C10", "cfg": "MC_C10_thorough", "module": "Abi", "tiers": ["thorough"], "max_len": 400,
              "tlc_timeout": 7200, "need": ["Encode/ok", "Decode/ok", "DecodeMut/ok", "DecodeMut/canonical"]},
         ],
